@@ -10,7 +10,7 @@ MISSING = '__missing__'
 
 JSONRPC_ALPHA = [MISSING, '2.0', '1.0', 2.0, 2, None, True, [], {}, '2.00', ' 2.0']
 ID_ALPHA = [MISSING, None, 0, 1, -1, 2 ** 63, 10 ** 30, 1.0, 1.5, '', 'a', '1', True, False, [], {}, 'é\u0000\U0001F600']
-METHOD_ALPHA = [MISSING, 'whoami', 'ctxp', 'fac1', 'fac2', 'ok', 'noargs', 'echo', 'kwonly', 'rpcerr', 'typed', 'boom', 'ctxm', 'view.vm',
+METHOD_ALPHA = [MISSING, 'slowfail', 'byid', 'wrapped', 'whoami', 'ctxp', 'fac1', 'fac2', 'ok', 'noargs', 'echo', 'kwonly', 'rpcerr', 'typed', 'boom', 'ctxm', 'view.vm',
                 'view._hidden', 'view', 'nope', '', 1, None, True, [], {}]
 PARAMS_ALPHA = [MISSING, [], {}, [1], [1, 2], {'a': 1}, {'a': 1, 'b': 2}, {'z': 0}, None, 1, 's', True,
                 [[1, [2, {'x': None}]]], {'v': {'k': [1.5, 'é', False]}}, [1, 2, 3], {'ctx': 'evil', 'a': 1}]
@@ -98,6 +98,14 @@ def typed_calls(rng: random.Random, full: bool) -> Iterator[Tuple[str, str, List
         yield 'unbound', 'view.vm', p
     for t in (0, 1, 2, 3, 5):
         yield 'slow', 'slow', [f's{t}', t]
+        yield 'slowfail', 'slowfail', [f'f{t}', t, 'rpc' if t % 2 else 'exc']
+    for p in ([7], {'id': 7}, {'id': 'x', 'extra': 1}, {'id': None}, [0, 0]):
+        yield 'param-named-id', 'byid', p
+    for p in ({'extra': 1}, {'id': 1, 'idd': 2}, []):
+        yield 'unbound', 'byid', p
+    for p in ([1], [1, 2], {'a': 1, 'b': 2}):
+        yield 'coroutine-returning-callable', 'wrapped', p
+    yield 'unbound', 'wrapped', {'zz': 1}
     yield 'slow', 'slow', {'v': 'sk', 'ticks': 2}
     for p in ([1], {'x': 1}):
         yield 'factory', 'fac1', p
@@ -162,7 +170,7 @@ def singles(rng: random.Random, full: bool) -> Iterator[Tuple[str, str]]:
 
 # ---- batches ----------------------------------------------------------------------------------------
 
-ELEMENT_KINDS = ['call_slow', 'call_ok', 'call_unknown', 'call_unbound', 'call_rpcerr', 'call_typed', 'call_exc', 'call_view',
+ELEMENT_KINDS = ['call_slowfail', 'call_wrapped', 'call_slow', 'call_ok', 'call_unknown', 'call_unbound', 'call_rpcerr', 'call_typed', 'call_exc', 'call_view',
                  'notify_ok', 'notify_unknown', 'notify_unbound', 'notify_rpcerr', 'notify_exc',
                  'invalid_obj', 'scalar', 'nullid_call']
 ID_SCHEMES = ['int', 'mixed', 'exotic']
@@ -181,6 +189,10 @@ def make_element(kind: str, pos: int, scheme: str = 'int') -> Any:
     i = element_id(scheme, pos)
     if kind == 'call_ok':
         return obj(id=i, method='ok', params=[tok])
+    if kind == 'call_slowfail':
+        return obj(id=i, method='slowfail', params=[tok, max(0, 3 - pos), 'rpc' if pos % 2 else 'exc'])
+    if kind == 'call_wrapped':
+        return obj(id=i, method='wrapped', params=[tok])
     if kind == 'call_slow':
         return obj(id=i, method='slow', params=[tok, max(0, 3 - pos)])    # earlier elements finish later
     if kind == 'call_view':
@@ -224,7 +236,7 @@ def batches(rng: random.Random, max_exhaustive_len: int, sampled: int, max_len: 
     for _ in range(sampled):
         n = rng.randint(max_exhaustive_len + 1, max_len)
         # mostly valid elements so that long batches are accepted often
-        pool = ELEMENT_KINDS if rng.random() < 0.3 else ELEMENT_KINDS[:13]
+        pool = ELEMENT_KINDS if rng.random() < 0.3 else ELEMENT_KINDS[:15]
         kinds = [rng.choice(pool) for _ in range(n)]
         yield f'batch-sampled', dumps([make_element(k, p, rng.choice(ID_SCHEMES)) for p, k in enumerate(kinds)]), n
     # all-notification batches of every length
